@@ -240,7 +240,8 @@ def run_shard(task):
                 return True
             res["evaluations"] += 1
             try:
-                out = clause.check(case)
+                with sk_config(case):
+                    out = clause.check(case)
             except Violation as v:
                 k = known_match(known, prop, clause_name, v)
                 if k is not None:
@@ -273,6 +274,9 @@ def run_shard(task):
             if out is None:
                 out = Outcome()
             for lab in out.labels:
+                res["labels"][lab] = res["labels"].get(lab, 0) + 1
+            if isinstance(case, dict) and "sk_config" in case:
+                lab = "sklearn-config:" + (",".join(sorted(case["sk_config"])) if case["sk_config"] else "default")
                 res["labels"][lab] = res["labels"].get(lab, 0) + 1
             if out.nontrivial:
                 nontrivial.add(case_hash(out.key if out.key is not None else case))
@@ -351,7 +355,8 @@ def replay_file(mod, path, quiet=False):
     clause = clause[0]
     known = load_known()
     try:
-        clause.check(doc["case"])
+        with sk_config(doc["case"]):
+            clause.check(doc["case"])
     except Violation as v:
         k = known_match(known, mod.PROPERTY, clause.name, v)
         if k is not None:
@@ -397,6 +402,26 @@ def np_scalars(params, on=True):
         else:
             out[k] = v
     return out
+
+
+SK_CONFIGS = [None, None, None, dict(working_memory=1e-3), dict(working_memory=1e-4), dict(assume_finite=True), dict(enable_metadata_routing=True)]
+
+
+def sk_config(case):
+    """context manager: the scikit-learn global configuration of the case (sklearn.set_config options a user may have changed: a small
+    working_memory, assume_finite, metadata routing).  The listed statements do not depend on it."""
+    import contextlib
+    cfg = case.get("sk_config") if isinstance(case, dict) else None
+    if not cfg:
+        return contextlib.nullcontext()
+    import sklearn
+    return sklearn.config_context(**cfg)
+
+
+def with_sk(strategy):
+    """adds a scikit-learn global configuration (None three times out of seven) to the dict cases of a strategy"""
+    from hypothesis import strategies as st
+    return st.builds(lambda c, k: dict(c, sk_config=k), strategy, st.sampled_from(SK_CONFIGS))
 
 
 def with_np(strategy):
